@@ -51,6 +51,8 @@ pub fn channel() -> (Sender, Receiver) {
 impl Sender {
     pub fn notify(&mut self) {
         self.0.set.store(true, Relaxed);
+        #[cfg(leptos_verif)]
+        crate::verif_yield("chan:flag_set");
         self.0.waker.wake();
     }
 }
@@ -64,6 +66,8 @@ impl Stream for Receiver {
     ) -> Poll<Option<Self::Item>> {
         if let Some(inner) = self.0.upgrade() {
             inner.waker.register(cx.waker());
+            #[cfg(leptos_verif)]
+            crate::verif_yield("chan:registered");
 
             if inner.set.swap(false, Relaxed) {
                 Poll::Ready(Some(()))
